@@ -32,7 +32,7 @@ Theorem int_enum_objects_exact : forall f fd fv self sub s scope t bb kv,
 Proof.
   intros f fd fv self sub s scope t bb kv Hsc Hp Hty Ha Haf Np Hreq Nn Hne Hprops Nk Hval Hg.
   apply (level_with_leaves idf cf defs fmt_ok env sdefs Hms Hom f fd fv self sub s scope t bb kv (fun _ => False) Hsc Hp Hty Ha Haf Np Hreq Nn Hne); try assumption.
-  - intros k p Hin. left. destruct (Hprops k p Hin) as [Hl|Hl]; [exact Hl|]. do 7 right. exact Hl.
+  - intros k p Hin. left. destruct (Hprops k p Hin) as [Hl|Hl]; [exact Hl|]. do 7 right. left. exact Hl.
   - intros fname k p ty bp _ _ [].
 Qed.
 End EnumObjects.
